@@ -202,17 +202,20 @@ struct Walk {
     p_up: f64,
     rng: SmallRng,
     last_up: bool,
+    /// clamped at 0: a down move from 0 proposes 0 again (a candidate equal to the current state is a
+    /// legal candidate, with its own proposal probability)
+    clamp: bool,
 }
 impl Proposal<i32, f64> for Walk {
     fn sample(&mut self, c: &[i32]) -> Vec<i32> {
         let u: f64 = self.rng.random();
         self.last_up = u < self.p_up;
-        vec![if self.last_up { c[0] + 1 } else { c[0] - 1 }]
+        vec![if self.last_up { c[0] + 1 } else if self.clamp && c[0] == 0 { 0 } else { c[0] - 1 }]
     }
     fn logp(&self, from: &[i32], to: &[i32]) -> f64 {
         if to[0] == from[0] + 1 {
             self.p_up.ln()
-        } else if to[0] == from[0] - 1 {
+        } else if to[0] == from[0] - 1 || (self.clamp && from[0] == 0 && to[0] == 0) {
             (1.0 - self.p_up).ln()
         } else {
             f64::NEG_INFINITY
@@ -345,7 +348,7 @@ impl Scenario for EndToEnd {
                 }
                 "mh_poisson_asym" | "mh_table_asym" => {
                     let (pmf, name): (Vec<f64>, &str) = if cfg == "mh_poisson_asym" {
-                        let lam = g.f64_in(2.0, 6.0);
+                        let lam = g.f64_in(0.7, 6.0);
                         let mut v = vec![];
                         let mut lf = 0.0;
                         for i in 0..60 {
@@ -362,6 +365,7 @@ impl Scenario for EndToEnd {
                     let pmf: Vec<f64> = pmf.iter().map(|x| x / z).collect();
                     let target = Pmf { logp: pmf.iter().map(|x| x.ln()).collect() };
                     let p_up = g.f64_in(0.3, 0.75);
+                    let clamp = g.bool(1, 2);
                     let kk = 4 * k;
                     let draw = |g: &mut Gen| -> i32 {
                         let u = g.f64();
@@ -383,7 +387,7 @@ impl Scenario for EndToEnd {
                         2 => (1u64 << 62) - 1,
                         _ => seed,
                     };
-                    let mut s = MetropolisHastings::new(target, Walk { p_up, rng: SmallRng::seed_from_u64(1), last_up: false }, starts).seed(seed);
+                    let mut s = MetropolisHastings::new(target, Walk { p_up, rng: SmallRng::seed_from_u64(1), last_up: false, clamp }, starts).seed(seed);
                     let ex: f64 = pmf.iter().enumerate().map(|(i, q)| i as f64 * q).sum();
                     let ex2: f64 = pmf.iter().enumerate().map(|(i, q)| (i * i) as f64 * q).sum();
                     // a tail cell: smallest q with P(X >= q) <= 0.1 (and > 0)
